@@ -90,6 +90,60 @@ def screen(m, meta):
     return {"reproduced": bool(problems), "input": "Pile(Text, Filler(UrwidImage(KittyImage))) drawn, then SolidFill drawn; clear_images in its four forms", "observed": problems}
 
 
+def hooks(m, meta):
+    """clear() / stop() / start() with an image on the terminal that the screen does not track (an image widget that is itself the top
+    widget: its canvas is not composite) and with a tracked one (inside a Pile): a delete-all is written each time; then screen()"""
+    import io, sys
+    import tests
+    import urwid
+    from PIL import Image
+    import term_image.geometry as G
+    import term_image._ctlseqs as ctlseqs
+    from term_image.image import KittyImage
+    from term_image.widget import UrwidImage, UrwidImageScreen
+    tests.set_cell_size(G.Size(10, 20))
+    tests.set_terminal_name_version("kitty", "0.30.0")
+    saved = (KittyImage._supported, getattr(KittyImage, "_TERM", None), getattr(KittyImage, "_KITTY_VERSION", None))
+    KittyImage._supported = True
+    KittyImage._TERM, KittyImage._KITTY_VERSION = "kitty", (0, 30, 0)
+    problems = []
+    try:
+        size = (30, 15)
+        buf = io.StringIO()
+        scr = UrwidImageScreen(sys.__stdin__, buf)
+        scr.start()
+        try:
+            w = UrwidImage(KittyImage(Image.new("RGB", (300, 200), "red")), upscale=True)
+            for label, top in (("image inside a Pile", urwid.Pile([w, (1, urwid.SolidFill("-"))])), ("image as the top widget", w)):
+                for hook in ("clear", "stop+start"):
+                    scr.draw_screen(size, urwid.SolidFill("x").render(size, True))
+                    scr.draw_screen(size, top.render(size, True))
+                    buf.seek(0); buf.truncate()
+                    if hook == "clear":
+                        scr.clear()
+                    else:
+                        scr.stop()
+                        stopped = buf.getvalue()
+                        buf.seek(0); buf.truncate()
+                        scr.start()
+                        if ctlseqs.KITTY_DELETE_ALL not in stopped:
+                            problems.append({"layout": label, "hook": "stop()", "observed": "no delete-all written"})
+                    if ctlseqs.KITTY_DELETE_ALL not in buf.getvalue():
+                        problems.append({"layout": label, "hook": hook.split("+")[-1] + "()", "observed": "no delete-all written: the image stays on the terminal"})
+        finally:
+            try:
+                scr.stop()
+            except Exception:  # noqa: BLE001
+                pass
+    except Exception as e:  # noqa: BLE001
+        problems.append({"error": f"{type(e).__name__}: {e}"})
+    finally:
+        KittyImage._supported, KittyImage._TERM, KittyImage._KITTY_VERSION = saved
+    if problems:
+        return {"reproduced": True, "input": "clear / stop / start with an untracked and a tracked image on screen", "observed": problems[:3]}
+    return screen(m, meta)
+
+
 def noncomposite(m, meta):
     """layouts with kitty and / or (on Konsole) iterm2 image widgets are drawn, then a top widget whose canvas is not composite
     (SolidFill): everything that was shown has to be deleted in that redraw - iterm2 images on Konsole only go away with a
